@@ -333,9 +333,17 @@ class DeterministicFiniteAutomaton(NondeterministicFiniteAutomaton):
         # Create a state for this
         to_new_states = {}
         for group in groups:
+            if None in group:
+                # Equivalent to the trash node: these states accept nothing
+                continue
             new_state = to_single_state(group)
             for state in group:
                 to_new_states[state] = new_state
+        states = {x for x in states if x in to_new_states}
+        if not self._start_state.issubset(states):
+            res = DeterministicFiniteAutomaton()
+            res.add_start_state(State("Empty"))
+            return res
         # Build the DFA
         dfa = DeterministicFiniteAutomaton()
         for state in self._start_state:
